@@ -573,23 +573,40 @@ def sc_factory(rng):
 
 
 def sc_refusals(rng):
+    """assignment to / deletion of an object's properties: spec-defined ones,
+    custom ones (allow_custom) and ones contributed by a toplevel-property
+    extension"""
     b = B(rng, "refusals")
     ver = pick_ver(rng)
     ty = rng.choice(["identity", "indicator", "file"])
+    extra, opts = {}, {}
+    if rng.random() < 0.6:
+        extra["x_verif"] = rng.choice(["v", {"a": [1, 2]}, ["p", "q"]])
+        opts = {"allow_custom": True}
+    if ver == "2.1" and ty != "file" and rng.random() < 0.4:
+        extra["extensions"] = {"extension-definition--%s" % uuid.UUID(int=rng.getrandbits(128), version=4):
+                               {"extension_type": "toplevel-property-extension"}}
+        extra["rank"] = rng.randint(1, 9)
+        extra["toplevel_list"] = ["a", "b"]
     if ty == "file":
-        o = b.add(op="construct", cls=cls_name(ver, "File"), kw=b.mk(file_kw(rng, ver, Ref(b.mk(ext_tree(rng, ver))))))
+        kw = dict(file_kw(rng, ver, Ref(b.mk(ext_tree(rng, ver)))), **extra)
+        o = b.add(op="construct", cls=cls_name(ver, "File"), kw=b.mk(kw), **opts)
         names = ["name", "hashes", "extensions", "size", "type", "id"]
     else:
-        o = b.add(op="construct", cls=cls_name(ver, CLS[ty]), kw=b.mk(sdo_kw(rng, ver, ty)))
+        kw = dict(sdo_kw(rng, ver, ty), **extra)
+        o = b.add(op="construct", cls=cls_name(ver, CLS[ty]), kw=b.mk(kw), **opts)
         names = ["name", "labels", "id", "created", "modified", "external_references", "description", "type", "revoked"]
-    for _ in range(rng.randint(2, 4)):
-        kind = rng.choice(["setattr", "delattr", "setitem"])
+    names = names[:] + [k for k in extra if k != "extensions"] * 3
+    for _ in range(rng.randint(2, 5)):
+        kind = rng.choice(["setattr", "setattr", "delattr", "setitem"])
         b.add(op=kind, arg=o, name=rng.choice(names))
+    if rng.random() < 0.5:
+        b.add(op="deepcopy", arg=o)
     return b.case()
 
 
 MODELLED = [(sc_extensions, 5), (sc_observed, 4), (sc_sdo, 4), (sc_markings, 5), (sc_bundle_store, 3),
-            (sc_store_get, 2), (sc_factory, 3), (sc_refusals, 1)]
+            (sc_store_get, 2), (sc_factory, 3), (sc_refusals, 2)]
 
 
 # ---- scenarios outside the model: snapshot oracle only ----
